@@ -390,4 +390,4 @@ _add("C04", "Command.get_dependencies (the real method; shape-bounded over every
 _add("C10", "BaseEngine._run on abstract segments: a successor that still holds outcomes from an earlier run of its own (repeated feed-forward "
      "segment) receives the predecessor's more recent outcome of every mode (shape-bounded).")
 _add("C09", "Hand-over also replaces values the successor still holds from an earlier run of its own.")
-
+_add("C10", "Stand-in: every sequence of <= 4 segments over {measure q0 selecting a distinct value, one REUSED feed-forward program}, one call and call by call, against the closed form.", idx=1)
